@@ -515,6 +515,7 @@ def phase_stream(ctx, env, cases, label, combos_per_case=None, builds=('plain',)
             ctx.hist('solution_paths', min(len(outs[k]['closed']), 8))
         for code, idx in codes:
             key = vertex_far_key(cases[ci]) if code == 6 else KEYS[code]
+            ctx.hist('failing_evaluations_by_key', key)
             found.setdefault(key, (k, '%s: solution path %d = %s' % (key, idx, outs[k]['closed'][idx][:12])))
     # Union idempotence on the geometric cases
     ul, uidx = [], []
@@ -529,6 +530,7 @@ def phase_stream(ctx, env, cases, label, combos_per_case=None, builds=('plain',)
             u = parse_bool(line)
             ctx.count('union_idempotence_checks')
             if u is None or vf.canon_paths(u['closed']) != vf.canon_paths(outs[k]['closed']):
+                ctx.hist('failing_evaluations_by_key', union_key(outs[k]['closed'], jobs[k][4]))
                 found.setdefault(union_key(outs[k]['closed'], jobs[k][4]),
                                  (k, 'Union/%s of the solution returns a different path set (%d paths -> %s)' % (FR[fr2], len(outs[k]['closed']), len(u['closed']) if u else 'crash')))
     for c in cases:
